@@ -1,13 +1,14 @@
 (* CasesText.v — evaluation of the `textforms` projection (C17): stream value text forms, typed text envelopes,
    JSON report codec (struct level), Pack/Unpack (implementation only). *)
-From DS Require Import Base Decimal StreamValue TextForms JsonReportBytes.
+From DS Require Import Base Decimal StreamValue TextForms JsonReportBytes JsonPackBytes.
 
 Inductive text_case :=
 | TText (v : sval) (text : res bytes) (back : res sval)       (* MarshalText, then UnmarshalTypedTextStreamValue(Type, text) *)
 | TParse (t : Z) (s : bytes) (out : res sval)                 (* UnmarshalTypedTextStreamValue on arbitrary text *)
 | TReport (r : freport) (enc : res jreport) (raw : option bytes) (dec : res freport)   (* Encode (as the JSON struct, and its exact bytes), Decode(Encode) *)
 | TDecode (j : jreport) (out : res freport)                   (* Decode of a JSON document built from j *)
-| TPack (t : ptuple) (packed : res jpack) (unpacked : res ptuple).   (* Pack (viewed as the JSON struct), Unpack(Pack) *)
+| TPack (t : ptuple) (packed : res jpack) (unpacked : res ptuple)    (* Pack (viewed as the JSON struct), Unpack(Pack) *)
+| TPackBytes (t : ptuple) (sigs_nil : bool) (raw : bytes).           (* the exact bytes Pack returned *)
 
 Definition freport_eqb (a b : freport) : bool :=
   bytes_eqb (f_digest a) (f_digest b) && (f_seq a =? f_seq b) && (f_chan a =? f_chan b) && (f_va a =? f_va b) &&
@@ -49,6 +50,9 @@ Definition text_agrees (c : text_case) : bool :=
   | TPack t packed unpacked =>
       res_agree jpack_eqb (Ok (pack_model t)) packed &&
       match packed with Ok j => res_agree ptuple_eqb (unpack_model j) unpacked | _ => true end
+  | TPackBytes t sn raw =>
+      bytes_eqb (json_pack_bytes t sn) raw &&
+      forallb (fun sg => match b64_decode (b64_encode (fst sg)) with Some b => bytes_eqb b (fst sg) | None => false end) (pt_sigs t)
   end.
 Definition text_skipped (c : text_case) : bool :=
   match c with
@@ -69,6 +73,7 @@ Definition c17_case (c : text_case) : bool :=
       else negb (is_panic enc) && negb (is_panic dec)
   | TPack t packed unpacked => match packed, unpacked with Ok _, Ok t' => ptuple_eqb t t' | _, _ => false end
   | TParse _ _ out | TDecode _ out => negb (is_panic out)
+  | TPackBytes _ _ _ => true
   end.
 
 Definition text_eval (cs : list text_case) :=
@@ -79,4 +84,5 @@ Definition text_eval (cs : list text_case) :=
     length (filter (fun c => match c with TParse _ _ _ => true | _ => false end) cs);
     length (filter (fun c => match c with TReport _ _ _ _ => true | _ => false end) cs);
     length (filter (fun c => match c with TDecode _ _ => true | _ => false end) cs);
-    length (filter (fun c => match c with TPack _ _ _ => true | _ => false end) cs)]).
+    length (filter (fun c => match c with TPack _ _ _ => true | _ => false end) cs);
+    length (filter (fun c => match c with TPackBytes _ _ _ => true | _ => false end) cs)]).
